@@ -2,7 +2,11 @@
 from .runprops import make
 from ..monitors.stale import Stale
 
+from .. import gen as _gen
+
 make(globals(), "C08", [Stale],
+     families=[name for name, spec in _gen.FAMILIES.items() if not spec.get("special")] + ["atoms_power_huge"],
+     events={"quick": 1500, "thorough": 4000},
      rule=("seeded whole runs; every unit of the in-state snapshotted at send_event_time is compared with the global "
            "state just before its event is committed; non-trivial = >= 30 interaction or cell-veto events checked "
            "with at least one other commit between request and commit"),
